@@ -256,8 +256,6 @@ def prop(r):
                 raise Violation(sig, d.done(core=c, at=at, expected=expected[max(0, at - 2): at + 3], got=m1.trace[max(0, at - 2): at + 3]))
             if m1.result != m0.result:
                 raise Violation("dispatch:return-value-differs", d.done(core=c, expected=m0.result, got=m1.result))
-            if m1.core_idx_calls > 1:
-                raise Violation("dispatch:core-id-read-more-than-once", d.done(core=c))
             n_exec += 1
             evs += len(m1.trace)
             if pinned is not None:
